@@ -48,6 +48,8 @@ def make_rows(cols, n, seed, nulls=False):
                 row[c] = [k + j for j in range(b[0] % 4)]
             if nulls and (b[1] + 3 * len(c) + k) % 5 == 0:
                 row[c] = None         # every column is nullable
+        if (b[2] + k) % 3 == 0:
+            row = dict(reversed(list(row.items())))     # same content, other key order: rows are looked up by column NAME
         rows.append(row)
     return rows
 
@@ -65,7 +67,12 @@ def run_case(case):
             with open(f, 'wb') as fo:
                 w = drive.collect(rx.from_(rows).pipe(parquet.dump_to_file(fo, schema, **kw)))
         else:
-            w = drive.collect(rx.from_(rows).pipe(parquet.dump_to_file(f, schema, **kw)))
+            dump = rx.from_(rows).pipe(parquet.dump_to_file(f, schema, **kw))
+            w = drive.collect(dump)
+            if case.get('twice'):
+                # the same dump observable run again (a retried / repeated export) rewrites the file with the same rows
+                H.require_clean(w, 'parquet.dump_to_file (first run)', **ctx)
+                w = drive.collect(dump)
         H.require_clean(w, 'parquet.dump_to_file', **ctx)
         if w.items:
             raise Violation('dump_to_file emitted items', **ctx)
@@ -113,7 +120,7 @@ def case_gen(draw):
     cols = draw(st.lists(st.sampled_from(sorted(COLS)), min_size=1, max_size=5, unique=True))
     return {'rows': rows, 'dump_batch': b, 'load_batch': draw(st.one_of(st.integers(1, 8), st.integers(1, 2000))),
             'row_group': draw(st.sampled_from([None, None, 1, 3, 100])), 'compression': draw(st.sampled_from(['NONE', 'snappy', 'gzip', 'zstd'])),
-            'cols': cols, 'fileobj': draw(st.booleans()), 'seed': draw(st.integers(0, 99)), 'nulls': draw(st.booleans())}
+            'cols': cols, 'fileobj': draw(st.booleans()), 'seed': draw(st.integers(0, 99)), 'nulls': draw(st.booleans()), 'twice': draw(st.integers(0, 3)) == 0}
 
 
 def boundary(tier):
@@ -126,7 +133,7 @@ def boundary(tier):
 
 def subs(tier):
     return [
-        Sub('roundtrip', run_case, gen=case_gen, examples={'quick': 300, 'thorough': 20000},
+        Sub('roundtrip', run_case, gen=case_gen, examples={'quick': 220, 'thorough': 20000},
             doc='dump_to_file -> pyarrow.read_table and load_from_file, generated row counts / batch sizes / codecs / schemas'),
         Sub('boundary', run_case, enum=boundary, doc='all row counts 0..2b+1 for small dump batch sizes b'),
     ]
